@@ -22,6 +22,7 @@ type c19alt struct {
 }
 
 func checkC19(p *Prog, rp *Report) {
+	defer stateRule(p, rp, "C19-STATE", p.Func("control", "OrderDSCForBuild"))
 	rp.Explanation = "OrderDSCForBuild is interpreted abstractly on eight sources (lib: libfoo1, libfoo-dev; tool; app; extra; gtk, gtk-doc, doc-tools, tools: hyphenated names whose concatenations coincide) whose build dependencies are placed, in turn, in each of Build-Depends, Build-Depends-Arch and Build-Depends-Indep, with alternatives that are substvars, not admitted on the build architecture, or unknown packages; the sorter is an oracle recording AddNode/AddEdge/Sort. C19-FIELDS: each of the three fields yields its edges, through the first admitted non-substvar alternative per relation (C06 semantics, interpreted, not mocked). C19-EDGE: edges run provider -> dependent, one node per input added before any edge, both dependents of one provider get their edge. C19-ERR: errors of AddEdge and Sort are returned with no order. C19-PERM: the result is the values of the nodes Sort returned, in that order. C19-TRIM: DSC.Binaries is a trimmed comma list (C10-TAGS instance). C19-DET: no range over a map in the function; the caller's list of sources is left unchanged."
 	rp.NotDecided = "that pault.ag/go/topsort computes a correct topological order and detects cycles (60 lines, read: Sort walks an ordered slice; AddEdge(from,to) emits from before to)."
 	rp.Trusted = []string{"go/types, go/ssa", "pault.ag/go/topsort v0.1.1: AddEdge(from, to) orders from before to; Sort is deterministic", "C06 (selection of alternatives)"}
